@@ -1746,7 +1746,7 @@ namespace avel {
         vec4x32i arg_exponent{_mm_srli_epi32(exponent_field, 23)};
 
         // Perform two multiplications such that they should never lead to lossy rounding
-        vec4x32i lower_bound0{vec4x32i{1} - arg_exponent};
+        vec4x32i lower_bound0{clamp(vec4x32i{1} - arg_exponent, vec4x32i{-252}, vec4x32i{0})};
         vec4x32i upper_bound0{vec4x32i{254} - arg_exponent};
 
         vec4x32i extracted_magnitude = clamp(exp, lower_bound0, upper_bound0);
@@ -1791,7 +1791,7 @@ namespace avel {
         vec4x32i arg_exponent{vshrq_n_s32(exponent_field, 23)};
 
         // Perform two multiplications such that they should never lead to lossy rounding
-        vec4x32i lower_bound0{vec4x32i{1} - arg_exponent};
+        vec4x32i lower_bound0{clamp(vec4x32i{1} - arg_exponent, vec4x32i{-252}, vec4x32i{0})};
         vec4x32i upper_bound0{vec4x32i{254} - arg_exponent};
 
         vec4x32i extracted_magnitude = clamp(exp, lower_bound0, upper_bound0);
